@@ -15,6 +15,8 @@ package core
 // before following a successor.
 
 import (
+	"strings"
+	"fmt"
 	"sort"
 	"go/constant"
 	"go/token"
@@ -29,11 +31,15 @@ import (
 type TNode struct {
 	B    *ssa.BasicBlock
 	From int
+	// Sel records, for the phis of OTHER blocks that some later branch tests
+	// (a flag computed in one block and tested in another), which incoming
+	// value the path merged: "name=edge,name=edge" sorted by name.
+	Sel string
 }
 
 // TEntry is the node for the function's entry (or any block entered without
 // a known predecessor).
-func TEntry(b *ssa.BasicBlock) TNode { return TNode{b, -1} }
+func TEntry(b *ssa.BasicBlock) TNode { return TNode{B: b, From: -1} }
 
 // TStep follows successor k of n.B: feasible reports whether a path that
 // entered n.B by n.From can leave it by k.
@@ -42,28 +48,191 @@ func (p *Program) TStep(n TNode, k int) (next TNode, feasible bool) {
 	if !FeasibleSucc(b, k) {
 		return TNode{}, false
 	}
-	if n.From >= 0 {
-		if v, known := p.threadCond(b, n.From); known {
+	if n.From >= 0 || n.Sel != "" {
+		if v, known := p.threadCondN(n); known {
 			if (k == 0) != v {
 				return TNode{}, false
 			}
 		}
 	}
 	succ := b.Succs[k]
-	from := -1
-	if threadable(succ) {
-		cnt := 0
-		for i, pb := range succ.Preds {
-			if pb == b {
-				from = i
-				cnt++
-			}
-		}
-		if cnt != 1 {
-			from = -1
+	idx, cnt := -1, 0
+	for i, pb := range succ.Preds {
+		if pb == b {
+			idx = i
+			cnt++
 		}
 	}
-	return TNode{succ, from}, true
+	if cnt != 1 {
+		idx = -1
+	}
+	from := -1
+	if threadable(succ) {
+		from = idx
+	}
+	sel := n.Sel
+	if tr := p.trackedPhis(succ.Parent()); len(tr) > 0 {
+		for _, in := range succ.Instrs {
+			ph, ok := in.(*ssa.Phi)
+			if !ok {
+				break
+			}
+			if tr[ph] {
+				sel = setSel(sel, ph.Name(), idx)
+			}
+		}
+	}
+	return TNode{succ, from, sel}, true
+}
+
+// trackedPhis: phis whose value is tested by a branch of another block.
+func (p *Program) trackedPhis(fn *ssa.Function) map[*ssa.Phi]bool {
+	if p.tracked == nil {
+		p.tracked = map[*ssa.Function]map[*ssa.Phi]bool{}
+	}
+	if m, ok := p.tracked[fn]; ok {
+		return m
+	}
+	m := map[*ssa.Phi]bool{}
+	var walk func(v ssa.Value, b *ssa.BasicBlock, d int)
+	walk = func(v ssa.Value, b *ssa.BasicBlock, d int) {
+		if d > 3 {
+			return
+		}
+		switch x := v.(type) {
+		case *ssa.Phi:
+			if x.Block() != b {
+				m[x] = true
+			}
+		case *ssa.UnOp:
+			if x.Op == token.NOT {
+				walk(x.X, b, d+1)
+			}
+		case *ssa.BinOp:
+			if x.Op == token.EQL || x.Op == token.NEQ {
+				walk(x.X, b, d+1)
+				walk(x.Y, b, d+1)
+			}
+		}
+	}
+	for _, b := range fn.Blocks {
+		if len(b.Instrs) == 0 {
+			continue
+		}
+		if iff, ok := b.Instrs[len(b.Instrs)-1].(*ssa.If); ok {
+			walk(iff.Cond, b, 0)
+		}
+	}
+	p.tracked[fn] = m
+	return m
+}
+
+func setSel(sel, name string, idx int) string {
+	var parts []string
+	if sel != "" {
+		for _, kv := range strings.Split(sel, ",") {
+			if !strings.HasPrefix(kv, name+"=") {
+				parts = append(parts, kv)
+			}
+		}
+	}
+	if idx >= 0 {
+		parts = append(parts, fmt.Sprintf("%s=%d", name, idx))
+	}
+	sort.Strings(parts)
+	return strings.Join(parts, ",")
+}
+
+func getSel(sel, name string) int {
+	if sel == "" {
+		return -1
+	}
+	for _, kv := range strings.Split(sel, ",") {
+		if strings.HasPrefix(kv, name+"=") {
+			v := 0
+			fmt.Sscanf(kv[len(name)+1:], "%d", &v)
+			return v
+		}
+	}
+	return -1
+}
+
+// resolveN reads v on the path described by n: phis of n.B by the edge the
+// path entered through, tracked phis of other blocks by the recorded choice.
+func resolveN(v ssa.Value, n TNode) ssa.Value {
+	for i := 0; i < 6; i++ {
+		ph, ok := v.(*ssa.Phi)
+		if !ok {
+			return v
+		}
+		if ph.Block() == n.B {
+			if n.From < 0 || n.From >= len(ph.Edges) {
+				return v
+			}
+			v = ph.Edges[n.From]
+			continue
+		}
+		k := getSel(n.Sel, ph.Name())
+		if k < 0 || k >= len(ph.Edges) {
+			return v
+		}
+		v = ph.Edges[k]
+	}
+	return v
+}
+
+// threadCondN evaluates n.B's branch condition on the path described by n.
+func (p *Program) threadCondN(n TNode) (val, known bool) {
+	b := n.B
+	if len(b.Instrs) == 0 {
+		return false, false
+	}
+	iff, ok := b.Instrs[len(b.Instrs)-1].(*ssa.If)
+	if !ok {
+		return false, false
+	}
+	if n.From >= 0 {
+		if v, k := p.evalThreaded(iff.Cond, b, n.From, 0); k {
+			return v, true
+		}
+	}
+	if n.Sel == "" {
+		return false, false
+	}
+	return p.evalSel(iff.Cond, n, 0)
+}
+
+// evalSel: the condition with tracked phis read as recorded; constants only
+// (and never-nil values against nil).
+func (p *Program) evalSel(c ssa.Value, n TNode, depth int) (val, known bool) {
+	if depth > 4 {
+		return false, false
+	}
+	c = resolveN(c, n)
+	switch x := c.(type) {
+	case *ssa.Const:
+		if x.Value != nil && x.Value.Kind() == constant.Bool {
+			return constant.BoolVal(x.Value), true
+		}
+	case *ssa.UnOp:
+		if x.Op == token.NOT {
+			v, k := p.evalSel(x.X, n, depth+1)
+			return !v, k
+		}
+	case *ssa.BinOp:
+		if x.Op != token.EQL && x.Op != token.NEQ {
+			return false, false
+		}
+		eq, k := p.valuesEqual(resolveN(x.X, n), resolveN(x.Y, n))
+		if !k {
+			return false, false
+		}
+		if x.Op == token.NEQ {
+			return !eq, true
+		}
+		return eq, true
+	}
+	return false, false
 }
 
 func threadable(b *ssa.BasicBlock) bool {
@@ -303,8 +472,25 @@ func (p *Program) sentinel(g *ssa.Global) bool {
 // EdgeAtomFrom is EdgeAtom for a path that entered e.From by predecessor
 // `from`: phis of that block are read as the value they take on that path.
 func (fi *FuncInfo) EdgeAtomFrom(e Edge, from int) (Atom, bool) {
-	if from < 0 || len(e.From.Instrs) == 0 {
+	return fi.EdgeAtomN(e, TNode{B: e.From, From: from})
+}
+
+// EdgeAtomN is EdgeAtom for the path described by n (n.B == e.From).
+func (fi *FuncInfo) EdgeAtomN(e Edge, n TNode) (Atom, bool) {
+	from := n.From
+	if (from < 0 && n.Sel == "") || len(e.From.Instrs) == 0 {
 		return fi.EdgeAtom(e)
+	}
+	if from < 0 {
+		iff, ok := e.From.Instrs[len(e.From.Instrs)-1].(*ssa.If)
+		if !ok {
+			return Atom{}, false
+		}
+		a := fi.atomOfN(iff.Cond, n, 0)
+		if e.Succ == 1 {
+			a = a.Negate()
+		}
+		return a, true
 	}
 	iff, ok := e.From.Instrs[len(e.From.Instrs)-1].(*ssa.If)
 	if !ok {
@@ -571,4 +757,27 @@ func (p *Program) SentinelNames() []string {
 	}
 	sort.Strings(out)
 	return out
+}
+
+// atomOfN: the atom of a condition with tracked phis read as recorded.
+func (fi *FuncInfo) atomOfN(v ssa.Value, n TNode, depth int) Atom {
+	v = resolveN(v, n)
+	if depth < 4 {
+		switch x := v.(type) {
+		case *ssa.BinOp:
+			if op, ok := cmpOps[x.Op]; ok {
+				lx, rx := resolveN(x.X, n), resolveN(x.Y, n)
+				if lx != x.X || rx != x.Y {
+					l, r := fi.Sym(lx), fi.Sym(rx)
+					a := Atom{L: l.String(), R: r.String(), Op: op, LE: l, RE: r}
+					return a.norm(isUnsigned(lx))
+				}
+			}
+		case *ssa.UnOp:
+			if x.Op == token.NOT {
+				return fi.atomOfN(x.X, n, depth+1).Negate()
+			}
+		}
+	}
+	return fi.AtomOf(v)
 }
